@@ -1027,6 +1027,37 @@ neu('n_comprehension_result_let', 'C10 C11 C19 C07', OBJ, '''                Val
             }''')
 
 
+# ---- round 7 rules
+brk('c04_logic_terms_sorted_by_id', 'C04 C06', PAR, '''    pub(crate) fn expr(mut self) -> IdedExpr {
+        if self.terms.len() == 1 {''', '''    pub(crate) fn expr(mut self) -> IdedExpr {
+        self.terms.sort_by_key(|t| matches!(t.expr, Expr::Call(_)));
+        if self.terms.len() == 1 {''')
+neu('n_logic_take_via_mem_replace', 'C04 C06 C01', PAR, '''            mem::take(&mut self.terms[mid])
+        } else {
+            self.balanced_tree(lo, mid - 1)''', '''            mem::replace(&mut self.terms[mid], IdedExpr::default())
+        } else {
+            self.balanced_tree(lo, mid - 1)''')
+brk('c20_missing_arg_is_receiver', 'C20', MAG, '''    let idx = ctx.arg_idx;
+    ctx.arg_idx += 1;
+    ctx.resolve(Argument(idx))''', '''    let idx = ctx.arg_idx;
+    ctx.arg_idx += 1;
+    if idx >= ctx.args.len() {
+        if let Some(this) = &ctx.this {
+            return Ok(this.clone());
+        }
+    }
+    ctx.resolve(Argument(idx))''')
+brk('c15_sub_through_i64_nanos', 'C15', OBJ, '''            (Value::Duration(l), Value::Duration(r)) => l
+                .checked_sub(&r)
+                .ok_or(ExecutionError::IntegerOverflow("sub", l.into(), r.into()))
+                .map(Value::Duration),''', '''            (Value::Duration(l), Value::Duration(r)) => l
+                .num_nanoseconds()
+                .zip((-r).num_nanoseconds())
+                .and_then(|(a, b)| a.checked_add(b))
+                .map(chrono::Duration::nanoseconds)
+                .ok_or(ExecutionError::IntegerOverflow("sub", l.into(), r.into()))
+                .map(Value::Duration),''')
+
 
 if __name__ == '__main__':
     main()
